@@ -252,6 +252,15 @@ class Enu(I.Imp):
             kn = self.known_by_id.get(callee.get("referencedMemberDecl"))
             if kn is None:
                 raise NotYet("call of the member function %s, which is not translated" % meth)
+            # a reference parameter bound to (a part of) a field that the callee assigns would see the assignment; the
+            # translation passes values
+            for a, isref in zip(args, getattr(kn, "ref_params", [])):
+                try:
+                    root, steps = self.path(a, env)
+                except Unsupported:
+                    continue
+                if isref and root == ("this",) and steps and steps[0][1] in kn.writes:
+                    raise Unsupported("the argument of %s is the field %s, which %s assigns, passed by reference" % (meth, steps[0][1], meth))
             r = self.call_known(kn, [self.ev(a, env) for a in args], env)
             if want_value and r is None:
                 raise Unsupported("value of void member function %s" % meth)
@@ -302,6 +311,16 @@ class Enu(I.Imp):
             for v in st.get("inner", []):
                 if v.get("name") in FIELD_TYPES:
                     raise Unsupported("local %s has the name of a field" % v.get("name"))
+                if v.get("storageClass") or v.get("tls"):
+                    raise Unsupported("local %s with storage class %s" % (v.get("name"), v.get("storageClass") or "thread_local"))
+            r = super().stmt(st, env)
+            for v in st.get("inner", []):
+                ls = self.locals.get(v.get("name"))
+                ty = v.get("type", {}).get("qualType", "")
+                if ls in ("vec", "aff", "mat", "geo", "wgs") and sort_of(ty) != ls:
+                    # e.g. `auto p = a * v;` is an Eigen expression template that reads `a` when it is used, not here
+                    raise Unsupported("local %s of type %s holds a %s: not a plain value (lazily evaluated expression?)" % (v.get("name"), ty[:80], ls))
+            return r
         if k not in ("CompoundStmt", "IfStmt", "DeclStmt", "ReturnStmt", "WhileStmt", "ForStmt", "DoStmt", "SwitchStmt"):
             ch = self.comma_chain(st)
             if ch is not None:
@@ -418,8 +437,6 @@ def find_defs(objs, ids):
             intemplate = True
         if k in ("CXXMethodDecl", "CXXConstructorDecl") and not n.get("isImplicit") and not intemplate and I.has_body(n):
             key = ids.get(n.get("id")) or ids.get(n.get("previousDecl"))
-            if key is None and n.get("parentDeclContextId") is None:
-                key = None
             if key is None:
                 raise Unsupported("definition of an unknown member function %s" % n.get("name"))
             if key in defs:
@@ -516,6 +533,8 @@ def generate(repo):
                 out.append(text.replace(head, head + "{T : Type} (N : NumOps T) "))
                 out.append(wrapper(suffix, kn, f.params))
                 kn.coq = "(src_%s N %s)" % (suffix, FARGS)
+                kn.ref_params = [c.get("type", {}).get("qualType", "").rstrip().endswith("&") for c in node.get("inner", [])
+                                 if c.get("kind") == "ParmVarDecl"]
                 known_by_key[key] = kn
                 for i, k2 in ids.items():
                     if k2 == key:
